@@ -11,6 +11,7 @@ from sa import agree as G
 from sa import order as OR
 from sa import purity as PU
 from sa import requests as RQ
+from sa import shape as SH
 
 
 def _t(rule_fn, **kw):
@@ -45,6 +46,7 @@ FLOORS = {
     "P1": 3, "P2": 2, "P3": 5, "P4": 1, "P5": 2, "P6": 9, "P7": 5, "P8": 1, "P9": 1, "P10": 1, "P11": 1, "P12": 1, "P13": 1,
     "E7": 30, "U1": 5, "S2": 12, "S3": 15, "G1": 6, "G2": 5, "G3": 8, "G4": 5, "G5": 1, "S1b": 6, "M1": 1,
     "N1": 25, "N2": 8, "O4": 2, "O5": 4, "O6": 1, "O7": 2, "V1": 10, "V2": 1, "S4": 1, "S5": 2, "S6": 10, "S7": 4, "S8": 1, "S1c": 12,
+    "V3": 3, "G6": 1, "J1": 2, "P14": 1, "F12": 1, "F13": 4, "F14": 5, "M2": 1, "P15": 1,
 }
 
 PROPERTIES = {}
@@ -86,8 +88,8 @@ prop(
     anchor_modules=TABLE_MODS,
     rules=[_t(T.rule_T0), _t(T.rule_T1), _t(T.rule_T3b), _t(T.rule_T3c), _t(T.rule_T3f),
            _t(T.rule_T3g), _t(T.rule_T4g), _t(T.rule_T4d), P.rule_P1, P.rule_P2, P.rule_P11,
-           G.rule_G1],
-    controls=[K.ctl_wf_drop_dormant_cell],
+           G.rule_G1, SH.rule_P15],
+    controls=[K.ctl_wf_drop_dormant_cell, K.ctl_skip_transitions_when_canceling],
     exhaustive=True,
     explanation=(
         "Decides the table clauses of 'quiescence implies a resting status': in every active "
@@ -132,9 +134,12 @@ prop(
     rules=[_t(T.rule_T3a, rows=("canceling",)), _t(T.rule_T3b, rows=("canceling",)),
            _t(T.rule_T3c, rows=("canceling",)), _t(T.rule_T3e), _t(T.rule_T3f),
            _t(T.rule_T3g), _t(T.rule_T3h, rows=("canceling",)), _t(T.rule_T4a), _t(T.rule_T4f),
-           P.rule_P2, P.rule_P7, P.rule_P10, P.rule_P13, E.rule_F10, G.rule_G1, G.rule_G2],
+           P.rule_P2, P.rule_P7, P.rule_P10, P.rule_P13, E.rule_F10, G.rule_G1, G.rule_G2,
+           P.rule_P14, SH.rule_P15, SH.rule_F13, SH.rule_F14],
     controls=[K.ctl_wf_canceling_to_succeeded, K.ctl_predicate_over_raw_sequence,
-              K.ctl_term_only_if_task_completed, K.ctl_override_on_canceled],
+              K.ctl_term_only_if_task_completed, K.ctl_override_on_canceled,
+              K.ctl_skip_transitions_when_canceling, K.ctl_render_on_completion,
+              K.ctl_clear_staging_on_request],
     exhaustive=True,
     explanation=(
         "Decides the table clauses of cancellation: canceling/canceled are not offering statuses "
@@ -193,9 +198,9 @@ prop(
     "C04",
     anchor_modules=TABLE_MODS,
     rules=[_t(T.rule_T0), _t(T.rule_T1), _t(T.rule_T3f), E.rule_F4, E.rule_F6, P.rule_P2,
-           RQ.rule_F9, G.rule_G1],
+           RQ.rule_F9, G.rule_G1, P.rule_P14, P.rule_F12],
     controls=[K.ctl_unvalidated_status_write, K.ctl_rerun_write_before_reject,
-              K.ctl_silent_noop_request],
+              K.ctl_silent_noop_request, K.ctl_swallow_report, K.ctl_fail_on_machine_error],
     explanation=(
         "Decides the structural clauses of 'terminal statuses are final': the terminal rows of "
         "the workflow table have no outgoing cell except succeeded->failed on an explicit failed "
@@ -210,7 +215,12 @@ prop(
         "triples, rejects every request that changed nothing except the idempotent and the two "
         "documented in-progress ones, and never raises after a change (F9); whether an item of a "
         "with-items task is still in flight - which decides if its staged entry is kept for the "
-        "late reports - is judged against the whole ACTIVE category (G1). NOT decided: every suffix of events "
+        "late reports - is judged against the whole ACTIVE category (G1); update_task_state drops "
+        "no report - every path raises or reaches the task state machine, so the event "
+        "sequences the table rules quantify over are the ones tasks really see (P14) - and "
+        "requests a workflow status on its own only while processing a task completion the "
+        "machine has just accepted, never from an error handler around the machine or for a "
+        "report that changed nothing (F12). NOT decided: every suffix of events "
         "after termination at the level of histories."),
     assumptions=[A1, A_SPEC, A_ABS, A_AST],
 )
@@ -239,8 +249,10 @@ prop(
 prop(
     "C06",
     anchor_modules=ENGINE_MODS,
-    rules=[E.rule_O2, E.rule_F2, G.rule_M1, P.rule_P3, P.rule_P6, PU.rule_V1, PU.rule_O7],
-    controls=[K.ctl_drop_ctx_copy, K.ctl_merge_skips_none],
+    rules=[E.rule_O2, E.rule_F2, G.rule_M1, P.rule_P3, P.rule_P6, PU.rule_V1, PU.rule_O7,
+           SH.rule_M2, SH.rule_F13],
+    controls=[K.ctl_drop_ctx_copy, K.ctl_merge_skips_none, K.ctl_filter_published_delta,
+              K.ctl_render_on_completion],
     explanation=(
         "Decides one clause: isolation of the context store. A stored context delta is never "
         "written after it was appended, and no task context is built by mutating a stored delta "
@@ -285,10 +297,12 @@ prop(
 prop(
     "C01",
     anchor_modules=ENGINE_MODS,
-    rules=[P.rule_P1, P.rule_P2, P.rule_P3, P.rule_P4, P.rule_P9, PU.rule_V2, G.rule_G3],
+    rules=[P.rule_P1, P.rule_P2, P.rule_P3, P.rule_P4, P.rule_P9, PU.rule_V2, G.rule_G3,
+           P.rule_P14, SH.rule_P15, SH.rule_F14],
     controls=[K.ctl_offer_completed_entries, K.ctl_stage_without_criteria,
               K.ctl_keep_started_task_staged, K.ctl_route_without_append,
-              K.ctl_falsy_result_dropped],
+              K.ctl_falsy_result_dropped, K.ctl_swallow_report,
+              K.ctl_skip_transitions_when_canceling, K.ctl_clear_staging_on_request],
     explanation=(
         "Decides the necessary structural clauses of 'every execution is justified, exactly "
         "once': every task get_next_tasks returns is built by get_task(id, route) of an entry "
@@ -313,8 +327,9 @@ prop(
     "C07",
     anchor_modules=ENGINE_MODS + ["composers.native", "graphing"],
     rules=[P.rule_P5, P.rule_P7, E.rule_F7, _e7_items, _t(T.rule_T3b),
-           _t(T.rule_T3g, rows=("paused",)), E.rule_O3],
-    controls=[K.ctl_join_always_ready, K.ctl_join_threshold, K.ctl_drop_join_check],
+           _t(T.rule_T3g, rows=("paused",)), E.rule_O3, SH.rule_F14],
+    controls=[K.ctl_join_always_ready, K.ctl_join_threshold, K.ctl_drop_join_check,
+              K.ctl_clear_staging_on_request],
     explanation=(
         "Decides the structural clauses of the join barrier: the ready flag of a staged entry is "
         "recomputed as 'inbound criteria == SATISFIED' after every arrival (new entry or "
@@ -428,8 +443,9 @@ prop(
 prop(
     "C14",
     anchor_modules=["composers.native", "graphing", "specs.native.v1.models"],
-    rules=[OR.rule_N2, P.rule_P7, G.rule_S1c],
-    controls=[K.ctl_unsorted_start_tasks, K.ctl_join_threshold, K.ctl_graph_restore_without_copy],
+    rules=[OR.rule_N2, P.rule_P7, G.rule_S1c, SH.rule_V3, SH.rule_G6],
+    controls=[K.ctl_unsorted_start_tasks, K.ctl_join_threshold, K.ctl_graph_restore_without_copy,
+              K.ctl_join_by_truth, K.ctl_conditional_edge_lookup],
     explanation=(
         "Decides one clause: the composed graph does not depend on the declaration order of "
         "tasks, and the barrier attribute is composed exactly for join tasks ('*' iff join: all, "
@@ -437,7 +453,13 @@ prop(
         "iterate the task mapping or returns a value that is sorted by task name / is a boolean "
         "or a count, and the composer iterates only those sorted results and its own queue; the "
         "graph is restored as a directed multigraph (call fact) from a deep copy of the persisted "
-        "document, so nothing of the restored graph stays shared with the document (S1c). NOT "
+        "document, so nothing of the restored graph stays shared with the document (S1c). Two "
+        "necessary conditions of 'exactly one edge per triple, barriers exactly where join is "
+        "declared': on the composition path the presence of join is decided against None and "
+        "never by the truth of the declared value, which may be 0 (V3); an edge is added only "
+        "after a look-up that reflects the graph at that moment - a call on the graph in the "
+        "same iteration, unconditionally, or an index kept current where the edge is added "
+        "(G6). NOT "
         "decided: exactness of nodes "
         "and edges against the definition over all shapes (the split-tracking pruning of the "
         "composer is an algorithm whose correctness is semantic), fidelity of networkx edge keys."),
@@ -449,9 +471,9 @@ prop(
     anchor_modules=["expressions.base", "expressions.yql", "expressions.jinja",
                     "expressions.functions.common", "conducting", "specs.native.v1.models"],
     rules=[PU.rule_O4, PU.rule_O5, PU.rule_O6, PU.rule_O7, PU.rule_V1, PU.rule_V2, E.rule_O2,
-           E.rule_F2],
+           E.rule_F2, SH.rule_J1],
     controls=[K.ctl_persist_internal_ctx, K.ctl_ctx_unfiltered, K.ctl_yaql_raw_context,
-              K.ctl_merge_skips_none, K.ctl_input_default_on_falsy],
+              K.ctl_merge_skips_none, K.ctl_input_default_on_falsy, K.ctl_render_every_string],
     explanation=(
         "Decides the purity and hiding clauses: in every Evaluator.contextualize the caller's "
         "context reaches the template engine only through a converting / copying call (O4); no "
@@ -463,7 +485,9 @@ prop(
         "dict-ness and the overwrite flag only, never by the value (O7); the renderers of input, "
         "vars, publish and output never branch on a rendered value, a runtime input value or a "
         "value read from the context (V1), and make_task_result hands a reported result through "
-        "untested (V2). NOT decided: "
+        "untested (V2); a whole-text template render of the Jinja evaluator happens only when a "
+        "recogniser found a block or a masked raw block in the text, so a plain string result "
+        "is never pushed through a second render (J1). NOT decided: "
         "preservation of arbitrary JSON values through ujson, YAQL conversion and string "
         "interpolation (run-time values)."),
     assumptions=[A_ABS, A_AST],
